@@ -101,9 +101,11 @@ macro_rules! return_if_some {
     };
 }
 
-pub const N_SINGLE: usize = 7;
+pub const N_SINGLE: usize = 10;
+/// single-trait families the plugin module can also make (C05)
+pub const N_PLUGIN_SINGLE: usize = 7;
 /// containers available per single-trait family
-pub const SINGLE_NCONT: [usize; N_SINGLE] = [2, 4, 2, 2, 1, 2, 1];
+pub const SINGLE_NCONT: [usize; N_SINGLE] = [2, 4, 2, 2, 1, 2, 1, 1, 1, 1];
 
 fn wrapc(o: Option<Box<dyn DynObj>>, cx: &Cx, cont: usize) -> Option<Created> {
     o.map(|obj| Created { obj, ctxsel: cx.ctxsel, borrowed: cont == 1 || cont == 2 })
@@ -128,6 +130,9 @@ pub fn create_single(family: usize, cont: usize, cx: &Cx) -> Option<Created> {
             4 => tw!(KConsume),
             5 => tw!(KChildren),
             6 => tw!(KChildrenMore),
+            7 => tw!(KDebug),
+            8 => tw!(KDisplay),
+            9 => tw!(KAsRef),
             _ => return None,
         };
         return Some(Created { obj, ctxsel: cx.ctxsel, borrowed });
@@ -153,6 +158,9 @@ pub fn create_single(family: usize, cont: usize, cx: &Cx) -> Option<Created> {
         4 => er!(Consume, KConsume, [0]),
         5 => er!(Children, KChildren, [0, 1]),
         6 => er!(ChildrenMore, KChildrenMore, [0]),
+        7 => er!(Debug, KDebug, [0]),
+        8 => er!(Display, KDisplay, [0]),
+        9 => er!(AsRef, KAsRef, [0]),
         _ => None,
     }
 }
